@@ -10,6 +10,7 @@ pub mod c07;
 pub mod c09;
 pub mod c10;
 pub mod c11;
+pub mod c12;
 pub mod c15;
 pub mod c16;
 pub mod c17;
@@ -24,6 +25,7 @@ pub fn run(prop: &str, ctx: &Ctx) -> Option<Report> {
         "C08" => meta::run_c08(ctx),
         "C20" => meta::run_c20(ctx),
         "C11" => c11::run(ctx),
+        "C12" => c12::run(ctx),
         "C13" => egprops::run_c13(ctx),
         "C05" => c05::run(ctx),
         "C07" => c07::run(ctx),
